@@ -224,6 +224,9 @@ Qed.
 Lemma schedule_k_Rinv k : forall st st' r, schedule_k o k st = (st', r) -> Rinv st -> Rinv st'.
 Proof.
   induction k as [|k IH]; intros st st' r H HR; simpl in H; [injection H as <- <-; exact HR|].
+  destruct (ckpt_missing o st) as [j|].
+  { injection H as <- <-. apply (Rinv_quiet st _ [ESSuggest (s_ntrials st) (o_sug o (s_ns st))]); auto.
+    intros x e [<-|[]]. reflexivity. }
   destruct (schedule_new_task o st) as [st1 r1] eqn:E1. apply schedule_new_task_Rinv in E1; [|exact HR].
   destruct r1; [eauto| |]; injection H as <- <-; exact E1.
 Qed.
